@@ -115,6 +115,31 @@ def solo(i, opts):
     return I.events(text, uri=uri, opts=opts)
 
 
+def first_offset(evs, solo_evs):
+    """Offset of a source's ids relative to its solo ids, read off the envelopes themselves."""
+    def first(o):
+        if isinstance(o, dict):
+            for k, v in o.items():
+                if k == 'id':
+                    return v
+                r = first(v)
+                if r is not None:
+                    return r
+        elif isinstance(o, list):
+            for v in o:
+                r = first(v)
+                if r is not None:
+                    return r
+        return None
+    a, b = first(evs), first(solo_evs)
+    if a is None or b is None:
+        return 0
+    try:
+        return int(a) - int(b)
+    except (TypeError, ValueError):
+        return 0
+
+
 def count_ids(evs):
     n = 0
 
@@ -153,19 +178,24 @@ def job_sequences(first, oi, maxlen):
             acc.validated += 1
             acc.nontrivial += 1
             ge = GherkinEvents(GherkinEvents.Options(print_source=opts[0], print_ast=opts[1], print_pickles=opts[2]))
+            running = 0
             for pos, i in enumerate(seq):
-                off = ge.id_generator._id_counter
                 r = I.events(POOL[i][1], uri=POOL[i][0], opts=opts, ge=ge)
                 if r[0] != 'ok':
                     acc.violation('stream-exception', case, 'enum raised ' + r[1])
                     break
                 evs = r[1]
-                acc.states.add((i, off > 0, opts))
+                acc.states.add((i, running > 0, opts))
                 acc.trans.add((seq[pos - 1] if pos else None, i, opts))
                 acc.outcomes['%s' % ('rejected' if evs and 'parseError' in evs[0] else 'accepted')] += 1
                 if n == 1 and not check_solo(i, opts, evs, acc, case):
                     break
+                off = first_offset(evs, solos[i])
                 want = shift_ids(solos[i], off)
+                if count_ids(evs) and off < running:
+                    acc.violation('source-independence', case, 'ids of source %d at position %d start at offset %d, below the %d ids already handed out' % (i, pos, off, running))
+                    break
+                running = off + count_ids(evs) if count_ids(evs) else running
                 if evs != want:
                     acc.violation('source-independence', case, 'envelopes of source %d at position %d are not its solo envelopes with ids shifted by %d' % (i, pos, off))
                     break
@@ -251,8 +281,13 @@ def job_files(items):
             with open(path, 'w', encoding='utf8', newline='') as f:
                 f.write(text)
             paths.append((path, text))
-        # the same path may be given more than once (overlapping globs): every occurrence is a source
-        paths = paths + paths[:2] + paths[-1:]
+        # the same path may be given more than once (overlapping globs): every occurrence is a source;
+        # a path is reported exactly as it was given, whatever its spelling
+        first = paths[0]
+        spellings = [(os.path.join(tmp, '.', os.path.basename(first[0])), first[1]), (tmp + '//' + os.path.basename(first[0]), first[1]),
+                     (os.path.join(tmp, 'sub', '..', os.path.basename(first[0])), first[1])]
+        os.makedirs(os.path.join(tmp, 'sub'), exist_ok=True)
+        paths = paths + paths[:2] + paths[-1:] + spellings
         events = list(SourceEvents([p for p, _ in paths]).enum())
         acc.n += 1
         if [e['source']['uri'] for e in events] != [p for p, _ in paths]:
@@ -302,13 +337,13 @@ def replay(case):
     opts = tuple(case['options'])
     ge = GherkinEvents(GherkinEvents.Options(print_source=opts[0], print_ast=opts[1], print_pickles=opts[2]))
     for pos, i in enumerate(case['sources']):
-        off = ge.id_generator._id_counter
         r = I.events(POOL[i][1], uri=POOL[i][0], opts=opts, ge=ge)
         if r[0] != 'ok':
             return ['enum raised ' + r[1]]
         if len(case['sources']) == 1:
             check_solo(i, opts, r[1], acc, case)
         s = solo(i, opts)
+        off = first_offset(r[1], s[1])
         if r[1] != shift_ids(s[1], off):
             return ['envelopes of source %d at position %d are not its solo envelopes shifted by %d' % (i, pos, off)]
     return [v[0]['message'] + ' observed=%r expected=%r' % (v[0].get('observed'), v[0].get('expected')) for v in acc.viol.values()]
